@@ -48,6 +48,10 @@ class FakeTime(object):
     return self.now
 
 
+def _failing_subscriber(tag):
+  raise RuntimeError('subscriber failure (injected)')
+
+
 class CacheRun(object):
   def __init__(self, mods, cfg, r_ops, w_ops, files=None, opcodes=False):
     self.mods = mods
@@ -84,6 +88,13 @@ class CacheRun(object):
       self.overflow += 1
     self._ovh = on_overflow
     m.events.cacheOverflow.addHandler(on_overflow)
+    self._failing = None
+    if cfg.get('flow'):
+      # a subscriber of cacheSpaceAvailable that fails (a callable without __name__): the event dispatcher isolates it,
+      # the drain that fired the event is not affected
+      import functools
+      self._failing = functools.partial(_failing_subscriber, 'x')
+      m.events.cacheSpaceAvailable.addHandler(self._failing)
     strat = self.cache.strategy
     if strat is not None:
       orig = strat.choose_item
@@ -105,6 +116,8 @@ class CacheRun(object):
   def teardown(self):
     m = self.mods
     m.events.cacheOverflow.removeHandler(self._ovh)
+    if self._failing is not None:
+      m.events.cacheSpaceAvailable.removeHandler(self._failing)
     m.cache._Cache = None
     import time
     import random
@@ -377,10 +390,12 @@ def explore(ctx, mods, cfg, r_ops, w_ops, bound, nrandom, limit, sink, opcodes=F
   if not cfg.get('coarse'):
     for k in range(1, min(len(w_ops) + 2, 5)):
       for j in range(1, 7):
-        plan = [('W', ('kind', 'release', k)), ('W', ('kind', 'line', j)), ('R', ('kind', 'op', 1)), ('W', ('done',)), ('R', ('done',))]
-        tr = run_plan(plan)
-        n += 1
-        sink(tr, dict(cfg=cfg, r_ops=r_ops, w_ops=w_ops, kind='window', plan=[[p[0], list(p[1])] for p in plan]))
+        for first in (0, 1, 2):       # the storing thread has completed `first` operations before the writer starts
+          plan = ([('R', ('kind', 'op', first))] if first else []) + [
+            ('W', ('kind', 'release', k)), ('W', ('kind', 'line', j)), ('R', ('kind', 'op', 1)), ('W', ('done',)), ('R', ('done',))]
+          tr = run_plan(plan)
+          n += 1
+          sink(tr, dict(cfg=cfg, r_ops=r_ops, w_ops=w_ops, kind='window', plan=[[p[0], list(p[1])] for p in plan]))
   return n, exhausted
 
 
